@@ -6,6 +6,8 @@ Leaf = z3.DeclareSort("Leaf")  # opaque pytree payloads, rng keys, distributions
 INT, REAL, BOOL = z3.IntSort(), z3.RealSort(), z3.BoolSort()
 
 R6 = z3.Function("R6", REAL, REAL)  # round(x, 6)
+PYMOD = z3.Function("pymod", INT, INT, INT)  # Python a % b on ints (elementwise use; scalars use quotient witnesses)
+PYDIV = z3.Function("pydiv", INT, INT, INT)
 
 _oid = itertools.count(1)
 
